@@ -48,11 +48,11 @@ func (p Plan) String() string {
 
 // Detail is the JSON-friendly form (long cut lists are shortened).
 func (p Plan) Detail() map[string]interface{} {
-	cuts := p.Cuts
+	cuts := append([]int{}, p.Cuts...)
 	if len(cuts) > 64 {
 		cuts = cuts[:64]
 	}
-	return map[string]interface{}{"kind": p.Kind, "cuts": cuts, "n_cuts": len(p.Cuts), "zero_reads_before_offsets": p.Zeros, "max_read_chunk": p.Chunk, "terminal": p.Term}
+	return map[string]interface{}{"kind": p.Kind, "cuts": cuts, "n_cuts": len(p.Cuts), "zero_reads_before_offsets": append([]int{}, p.Zeros...), "max_read_chunk": p.Chunk, "terminal": p.Term}
 }
 
 // Apply scripts the transport's read side with stream s under the plan.
